@@ -322,6 +322,42 @@ func ruleConfigAgreement(c *Ctx) {
 			if lookup == nil || keyVal == nil || !isKey(lookupKey) {
 				problems = append(problems, "the value is not looked up under the iterated key")
 			}
+			// what follows the key is this iteration's lookup result (or a constant default),
+			// never a value carried over from an earlier key
+			var valueOK func(v ssa.Value, d int) bool
+			valueOK = func(v ssa.Value, d int) bool {
+				if d > 4 {
+					return false
+				}
+				sv := strip(v)
+				switch x := sv.(type) {
+				case *ssa.Const:
+					return true
+				case *ssa.Extract:
+					return lookup != nil && x.Tuple == ssa.Value(lookup) && x.Index == 0
+				case *ssa.Call:
+					return lookup != nil && x == lookup
+				case *ssa.Phi:
+					if x.Block() == loop.Header {
+						return false
+					}
+					for _, e := range x.Edges {
+						if !valueOK(e, d+1) {
+							return false
+						}
+					}
+					return true
+				}
+				return false
+			}
+			for i, ev := range emits {
+				if i == 0 || isKey(ev) {
+					continue
+				}
+				if !valueOK(ev, 0) {
+					problems = append(problems, "a value appended after the key is not the result of this key's lookup (a value left over from an earlier key can be reported)")
+				}
+			}
 			if len(emits) < 2 {
 				problems = append(problems, "key and value are not both appended")
 			} else {
